@@ -150,10 +150,18 @@ func cmdC14(tier string, seed int64, out, statsOut, replay string) {
 		writeDesc(id, map[string]string{"kind": "split", "schema": schema, "version": v, "prerelease": pre, "metadata": meta})
 		// the same through the front door: a YAML document, Parse, Get, WithDefaults (what `nfpm package` does);
 		// reported as a case of its own when the document parses and the outcome differs from the direct one
-		for vi, viaEnv := range []bool{false, true} {
+		for vi, viaEnv := range []int{0, 1, 2} {
 			fields := map[string]string{"name": "p", "arch": "amd64", "version": v, "prerelease": pre, "version_metadata": meta, "version_schema": schema}
 			mapping := func(string) string { return "" }
-			if viaEnv {
+			if viaEnv == 2 {
+				// the version as written, the prerelease through the environment (empty when none is configured)
+				if strings.Contains(v+pre+meta, "$") {
+					continue
+				}
+				fields["prerelease"] = "${VERIF_P}"
+				mapping = func(k string) string { return map[string]string{"VERIF_P": pre}[k] }
+			}
+			if viaEnv == 1 {
 				// the same values supplied through the environment: what is split is the expanded version
 				if strings.Contains(v+pre+meta, "$") {
 					continue
@@ -166,8 +174,14 @@ func cmdC14(tier string, seed int64, out, statsOut, replay string) {
 			if err != nil {
 				continue
 			}
-			id := id + []string{"", "-env"}[vi]
+			id := id + []string{"", "-env", "-prerelease-env"}[vi]
 			if cfg, err := nfpm.ParseWithEnvMapping(bytes.NewReader(doc), mapping); err == nil {
+				// what Parse itself left in the configuration (a library user reads it without another WithDefaults)
+				if cfg.Version != info.Version || cfg.Prerelease != info.Prerelease || cfg.VersionMetadata != info.VersionMetadata {
+					w.line("vsplit %s %s %s %s %s %s %s %s", id+"-as-parsed", xs(schema), xs(v), xs(pre), xs(meta), xs(cfg.Version), xs(cfg.Prerelease), xs(cfg.VersionMetadata))
+					writeDesc(id+"-as-parsed", map[string]string{"kind": "split", "schema": schema, "version": v, "prerelease": pre, "metadata": meta, "via": "yaml, as parsed"})
+					st.cases++
+				}
 				if got, err := cfg.Get("deb"); err == nil {
 					i2 := nfpm.WithDefaults(got)
 					if i2.Version != info.Version || i2.Prerelease != info.Prerelease || i2.VersionMetadata != info.VersionMetadata {
